@@ -12,6 +12,7 @@ import (
 	"gverif/engine/dspx"
 	"gverif/engine/factx"
 	"gverif/engine/flagx"
+	"gverif/engine/globalx"
 	"gverif/engine/goproto"
 	"gverif/engine/graphinv"
 	"gverif/engine/initx"
@@ -55,10 +56,10 @@ var propertyCanaries = map[string][]string{
 	"C06": {"OKFLOW.use", "OKFLOW.cond", "OKFLOW.report", "FACT.normorder", "FACT.state", "FACT.condunit", "NILRECV"},
 	"C07": {"ARGS.arms", "ARGS.strict", "WORKSIZE.querylen", "ARGS.order", "ARGS.lencheck", "ARGS.query", "MAT.order", "ASM.window", "ASM.tail", "STRIDE.len"},
 	"C08": {"PARAMUSE.read", "ASM.window", "ASM.tail", "ASM.units", "STRIDE.extent", "SIB.guards"},
-	"C09": {"GOPROTO.capture", "GOPROTO.lockpair", "GOPROTO.sibling", "POOL.uaf"},
+	"C09": {"GLOBAL.write", "GOPROTO.capture", "GOPROTO.lockpair", "GOPROTO.sibling", "POOL.uaf"},
 	"C12": {"GRAPHINV.converse", "GRAPHINV.uid", "GRAPHINV.iter", "TWIN.sibstate"},
 	"C16": {"DECODE.mul", "DECODE.selfcmp", "DECODE.clone", "DECODE.fields"},
-	"C17": {"RESET.fields", "WINDOW.pointwise"},
+	"C17": {"GLOBAL.write", "RESET.fields", "WINDOW.pointwise"},
 	"C18": {"CONST.stencil", "GOPROTO.sibling"},
 	"C19": {"GOPROTO.run", "INIT.state"},
 }
@@ -72,6 +73,7 @@ func init() {
 		{"ARGS.arms", "blas/gonum/level2float64.go", "(incY < 0 && len(y) <= (1-n)*incY)", "(incY < 0 && len(y) <= (1-n)*incX)", func() *core.Result { return worksize.RunArms(def, core.Pkgs("./blas/gonum")) }},
 		{"ARGS.strict", "blas/gonum/dgemm.go", "len(c) < ldc*(m-1)+n", "len(c) <= ldc*(m-1)+n", func() *core.Result { return worksize.RunArms(def, core.Pkgs("./blas/gonum")) }},
 		{"ARGS.strict", "lapack/gonum/dgetrf.go", "len(a) < (m-1)*lda+n", "len(a) <= (m-1)*lda+n", func() *core.Result { return worksize.RunArms(def, core.Pkgs("./lapack/gonum")) }},
+		{"GLOBAL.write", "mat/pool.go", "\tw := *poolFloat64s[poolFor(uint(l))].Get().(*[]float64)\n\tw = w[:l]", "\tw := *poolFloat64s[poolFor(uint(l))].Get().(*[]float64)\n\tw = w[:l]\n\tpoolFloat64s[0].New = nil", func() *core.Result { return globalx.Run(def, core.Pkgs("./mat"), globalx.Options{}) }},
 		{"WORKSIZE.min", "lapack/gonum/dgels.go", "wsize := max(1, mn+max(mn, nrhs)*nb)", "wsize := max(1, mn+mn*nb)", wsz},
 		{"WORKSIZE.querylen", "lapack/gonum/dormqr.go", "case lwork < max(1, nw) && lwork != -1:\n\t\tpanic(badLWork)", "case lwork < max(1, nw) && lwork != -1:\n\t\tpanic(badLWork)\n\tcase len(tau) != k:\n\t\tpanic(badLenTau)", wsz},
 		{"WORKSIZE.min", "lapack/gonum/dsyev.go", "lworkopt := max(1, (nb+2)*n)", "lworkopt := max(1, (nb+1)*n)", wsz},
